@@ -15,7 +15,9 @@ Client side (mirrors the Python literally):
   `serverbound.login.LoginStartPacket` (id `get_id(context)` — 0x00 in every release, 0x01 on the
   1.13 snapshots 385..390 — here the parameter `lsId`; `String name`).
   Failure points: `UnsignedShort.send` = `struct.pack('>H', port)` raises `struct.error` outside
-  `0..65535`; `Long.send` = `struct.pack('>q', t)` raises `struct.error` outside `-2^63..2^63-1`;
+  `0..65535` (reachable through `connect()`: glibc's `getaddrinfo(host, 70000)` silently resolves
+  to port `70000 mod 65536 = 4464`, so `_connect()` succeeds and the handshake write then raises
+  in the networking thread); `Long.send` = `struct.pack('>q', t)` raises `struct.error` outside `-2^63..2^63-1`;
   `String.send(None)` (no user name and no auth token) raises `AttributeError` (`Err.other`).
   `VarInt.send` and `String.send` of a `str` never raise for the values of the model (`Nat`
   protocol numbers, Lean `String`s, which — unlike Python `str` — cannot hold lone surrogates).
